@@ -260,6 +260,53 @@ func (v *Verifier) callWrites(fn *ssa.Function, cc *ssa.CallCommon, ws map[strin
 	if len(callee.Blocks) == 0 {
 		return
 	}
+	if c := v.contractFor(callee); c != nil && !c.Inline && !c.Abstract {
+		// a callee used through its contract changes only its modifies targets (it proves its frame)
+		ws["next"] = true
+		for _, m := range c.Modifies {
+			cf := v.clauseFn(m)
+			if cf == nil {
+				continue
+			}
+			t := cf.Signature.Results().At(0).Type()
+			regFresh = false
+			switch m.ModKind {
+			case "elems":
+				if sl, ok := under(t).(*types.Slice); ok {
+					regE(sl.Elem(), ws)
+				}
+			case "obj", "global":
+				if pt, ok := under(t).(*types.Pointer); ok {
+					regH(pt.Elem(), ws, 0, -1)
+				}
+			case "field":
+				if pt, ok := under(t).(*types.Pointer); ok {
+					if stt, ok := under(pt.Elem()).(*types.Struct); ok {
+						for k := 0; k < stt.NumFields(); k++ {
+							if stt.Field(k).Name() == m.ModField {
+								lo, hi := fieldLeafRange(stt, k)
+								regH(pt.Elem(), ws, lo, hi)
+							}
+						}
+					}
+				}
+			case "mapof":
+				if mt, ok := under(t).(*types.Map); ok {
+					regM(mt, ws)
+				}
+			}
+		}
+		// ghost components written by the callee's externs
+		if !c.Trusted {
+			sub := v.writeSetRec(callee, visiting)
+			for n := range sub {
+				if strings.HasPrefix(n, "G|") || strings.HasPrefix(n, "!G|") {
+					ws[n] = true
+				}
+			}
+		}
+		return
+	}
 	saved := curLoopBody
 	curLoopBody = nil // inside the callee every object it allocates is new relative to the caller
 	sub := v.writeSetRec(callee, visiting)
@@ -273,26 +320,48 @@ func (v *Verifier) writeSet(fn *ssa.Function) map[string]bool {
 	return v.writeSetRec(fn, map[*ssa.Function]bool{})
 }
 
+// writeSetRec: union of the direct writes of every function reachable through calls that are
+// executed in place or through contracts (trusted contracts and functions outside the repository
+// are not entered: they contribute an allocation effect only)
 func (v *Verifier) writeSetRec(fn *ssa.Function, visiting map[*ssa.Function]bool) map[string]bool {
 	if ws, ok := v.wsCache[fn]; ok {
 		return ws
 	}
+	top := len(visiting) == 0
 	if visiting[fn] {
 		return map[string]bool{}
 	}
 	visiting[fn] = true
 	ws := map[string]bool{}
+	if c := v.contractFor(fn); (c != nil && c.Trusted) || !v.inRepo(fn) {
+		ws["next"] = true
+		if top {
+			v.wsCache[fn] = ws
+		}
+		return ws
+	}
 	cells := map[*ssa.Alloc]bool{}
 	for _, b := range fn.Blocks {
 		for _, in := range b.Instrs {
 			v.addInstrWrites(fn, in, ws, cells, visiting)
 		}
 	}
-	delete(visiting, fn)
-	if len(visiting) == 0 {
+	if top {
+		// complete only for the root of the traversal (inner results may be cut by cycles)
 		v.wsCache[fn] = ws
 	}
 	return ws
+}
+
+func (v *Verifier) inRepo(fn *ssa.Function) bool {
+	root := fn
+	for root.Parent() != nil {
+		root = root.Parent()
+	}
+	if root.Origin() != nil {
+		root = root.Origin()
+	}
+	return root.Pkg != nil && strings.HasPrefix(root.Pkg.Pkg.Path(), "github.com/free5gc/chf")
 }
 
 // sliceWrite: an element store s[i] = v inside a loop where s is loop-invariant
